@@ -147,6 +147,10 @@ Definition is_none (v : pyval) : bool := match v with PNone => true | _ => false
 (* v.items() on a field value: defined for dicts and dict subclasses (view_dict); anything else is outside the documented
    field types (ModelScope) *)
 Definition pv_items (v : pyval) : result (list (pyval * pyval)) := match view_dict v with Some kvs => Ok kvs | None => Err ModelScope end.
+(* an int operand of format(key, f"0{num_bits}b") (idiom format-bin-zfill, spec format_int_view): the model's scope are non-negative
+   ints (Json/ResultCodec.v: key_nat, format_keys); anything else — a negative int, a bool, a float, a str — is ModelScope *)
+Definition as_nonneg_int (v : pyval) : result Z :=
+  match v with PNum (NInt z) => if (z <? 0)%Z then Err ModelScope else Ok z | _ => Err ModelScope end.
 (* a Python list of 2-tuples (dict.items()) as a value *)
 Definition items_value (kvs : list (pyval * pyval)) : pyval := PList (map (fun kv_ => PTuple [fst kv_; snd kv_]) kvs).
 '''
@@ -171,7 +175,7 @@ SPEC = dict(
     module="C18Gen",
     link="coq/link/C18Link.v",
     imports=["From QV Require Import Json.JsspCodec Json.ResultCodec.", "From QV Require Import Translate.PyPrelude."],
-    coq_deps=["theories/Json/JsspCodec.vo", "theories/Json/ResultCodec.vo", "theories/Json/Protocol_proofs.vo"],
+    coq_deps=["theories/Json/JsspCodec.vo", "theories/Json/ResultCodec.vo", "theories/Json/Protocol_proofs.vo", "theories/Json/Result_proofs.vo"],
     preamble=PREAMBLE,
     reserved=["d", "operation", "job", "instance", "schedule", "machine", "layer", "gate", "individual", "population", "ind", "num", "json", "cls",
               "has", "iter", "flags", "aux", "scalar", "quasi", "popeval", "item", "member"],
@@ -208,6 +212,7 @@ SPEC = dict(
     },
     isinstance_dyn={("pyval", "type"): "is_instance {0} {1}"},
     iter={"pyval": ("EvqeCodec.iter {0}", PyVal, True)},
+    format_int_view={"pyval": "as_nonneg_int {0}"},
     compares={("Is", "pyval", "none"): "is_none {0}", ("Eq", "pyval", "string"): "py_eqb {0} (PStr {1})"},
     methods={
         ("pyval", "items"): dict(code="pv_items {0}", ty=Items, params=[], partial=True),
@@ -216,6 +221,7 @@ SPEC = dict(
         ("BinaryProbabilities", "keys"): dict(code="{0}", ty=List(STR), params=[]),
         ("BytesIO", "getvalue"): dict(code="{0}", ty=BytesT, params=[]),
         ("bytes", "decode"): dict(code="{0}", ty=STR, params=[("encoding", STR)]),
+        (repr(SDict), "get"): dict(code="dget_or_none {key} {0}", ty=PyVal, params=[("key", STR)]),  # object_dict.get(k): None when absent
         (repr(SetT(STR)), "union"): dict(code="({0} ++ {other})%list", ty=SetT(STR), params=[("other", SetT(STR))]),
     },
     funcs={
@@ -289,17 +295,15 @@ SPEC = dict(
              funcs={"BytesIO": dict(code="EmptyString", ty=BytesIOT, params=[])},
              locals={"eigenvalue": PyVal, "aux_operators_evaluated": PyVal, "population_evaluation_results": PyVal}),
         parse("EvolvingAnsatzMinimumEigensolverResultJSONDecoder", "parse_complex_number", "parse_complex_number", RESULT),
-        # parse_quasidistribution is NOT translated since fix 110f6bc: `format(key, f"0{num_bits}b")` has a computed format spec
-        # (outside the subset, e_JoinedStr fails closed).  The hook's call of it stands for the model's function
-        # (parse_quasidistribution head_flags); that function is tied to /repo by the C18 correspondence only.
+        # `format(key, f"0{num_bits}b")` (fix 110f6bc) is the idiom format-bin-zfill; key and num_bits are untyped values, read
+        # through format_int_view (as_nonneg_int); the dict comprehension is the generic mapM + py_dict_set fold
+        parse("EvolvingAnsatzMinimumEigensolverResultJSONDecoder", "parse_quasidistribution", "parse_quasidistribution", RESULT),
         dict(parse("EvolvingAnsatzMinimumEigensolverResultJSONDecoder", "parse_quantum_circuit", "parse_quantum_circuit", RESULT),
              funcs={"BytesIO": dict(code="{initial_bytes}", ty=BytesIOT, params=[("initial_bytes", BytesT)])}),
         parse("EvolvingAnsatzMinimumEigensolverResultJSONDecoder", "parse_base_population_evaluation", "parse_base_population_evaluation", RESULT),
         dict(parse("EvolvingAnsatzMinimumEigensolverResultJSONDecoder", "parse_evolving_ansatz_result", "parse_evolving_ansatz_result", RESULT),
              local_objects=["result"]),
         dict(parse("EvolvingAnsatzMinimumEigensolverResultJSONDecoder", "object_hook", "result_hook", RESULT),
-             self_attrs={"_evqe_population_decoder": ("tt", EvqeDec)},
-             self_methods={"parse_quasidistribution": dict(code="parse_quasidistribution head_flags {object_dict}", ty=PyVal,
-                                                           params=[("object_dict", SDict)], partial=True)}),
+             self_attrs={"_evqe_population_decoder": ("tt", EvqeDec)}),
     ],
 )
